@@ -139,7 +139,7 @@ CLAIMED = {
     "C09": (
         "Lean 4 theorems over a model of the upload's I/O program + fault enumeration of the real code at every write/flush",
         "Theorems in lean/Tup/Props/C09.lean: for every list of escape codes and every fault position/kind the error surfaces and "
-        "nothing is marked; marked implies every byte written and flushed. The program shape (flush; write+flush per escape code; "
+        "nothing is marked; marked implies every byte written and flushed; in every outcome flushed bytes <= accepted bytes and completed calls <= calls of the transmission. The program shape (flush; write+flush per escape code; "
         "then mark_uploaded) is tied to /repo by injecting OSError / process death at EVERY I/O call of real uploads (both methods, "
         "several payload sizes) and comparing outcome, bytes and upload table with the model (harness/c09.py).",
         "Trusted: Lean kernel; sqlite statement atomicity; no partial writes; fault enumeration covers the payload shapes listed in the evidence.",
